@@ -22,6 +22,8 @@ structure Th where
   val : String
   stage : String     -- summoned | vigil | draining | done
   gen : Nat
+  /-- a Delete request with a second key, handled after the first one (which may have ended the instance) -/
+  key2 : String := ""
 
 structure DSt where
   cfg : Cfg
@@ -42,6 +44,13 @@ structure DSt where
   ackDel : List String
   /-- a stale close callback removed a fresh instance from the map -/
   orphaned : Bool := false
+  /-- cause of a loss that the next `reopen` will show -/
+  pendingCause : String := ""
+  /-- fact: DeleteTreasure refuses to work on an instance that has been closed / destroyed and the gateway deletes the
+      remaining keys of the request on the instance that is mapped then -/
+  delChecksClosed : Bool := true
+  /-- a delete was acknowledged on a closed instance (nothing reached the file) -/
+  deadDelete : Bool := false
   /-- mode stop: GracefulStop has returned (the data directory was copied at that instant) -/
   stopped : Option Nat := none
 
@@ -80,8 +89,10 @@ def destroyFin (d : DSt) (t : Nat) : Option DSt :=
   | none => none
   | some d1 => if d1.s.live && d1.s.stage == 1 then acts d1 [.closeFlush, .closeDone] else some d1
 
+/-- a step after which an acknowledged write is in no place a re-open would find it.  The flag is attached to the next
+    `reopen` line — the line whose reply observes the loss — not to the step itself. -/
 def flag (d0 d : DSt) (cause : String) : DSt × String :=
-  if !d.flagged && durableB d0.s && !durableB d.s then ({ d with flagged := true }, s!"\t#F:{cause}") else (d, "")
+  if !d.flagged && durableB d0.s && !durableB d.s then ({ d with flagged := true, pendingCause := cause }, "") else (d, "")
 
 /-- Set on the instance of generation `g` (value level) -/
 def writeV (d : DSt) (g : Nat) (k v : String) : DSt × String :=
@@ -111,12 +122,41 @@ def showKeys (m : List RecV) : String :=
   let ks := (m.map (fun r => s!"{r.key}:{r.val}")).toArray.qsort (· < ·) |>.toList
   "keys=[" ++ ",".intercalate ks ++ "]"
 
-def idOf (n : String) : Nat := match n with | "A" => 1 | "B" => 2 | "C" => 3 | _ => 4
+def idOf (n : String) : Nat := match n with | "A" => 1 | "B" => 2 | "C" => 3 | "D" => 4 | "E" => 5 | "W" => 6 | _ => 7
+
+/-- a synchronous Delete of one key on whatever instance is mapped (summon, delete, auto-destroy when it was the last) -/
+def delSync (d : DSt) (k : String) : DSt × String :=
+  if !d.s.live && d.fileV.isEmpty then (d, "NOT_FOUND") else
+  let t := d.next
+  match acts d (summonActs d t) with
+  | none => (d, "hang")
+  | some d1 =>
+    let g := (d1.s.th t).gen
+    let (d2, st) := delV d1 g k
+    match act d2 (.del t (keyNum k)) with
+    | none => (d, "ERR")
+    | some d3 =>
+      match (if (d3.s.th t).pc == 4 then destroyFin d3 t else act d3 (.cease t)) with
+      | some d4 => ({ d4 with next := t + 1 }, st)
+      | none => (d, "hang")
+
+/-- the second key of a two-key Delete request whose first key ended the instance the request holds -/
+def delSecond (d : DSt) (t : Th) : DSt × String :=
+  if t.key2 == "" then (d, "") else
+  if d.delChecksClosed then
+    let (d1, st) := delSync d t.key2
+    (d1, "," ++ st)
+  else
+    -- it keeps deleting on the instance it holds: acknowledged there, nothing reaches the file
+    let m := memOf d t.gen
+    if m.any (·.key == t.key2) then
+      ({ setMem d t.gen (m.filter (·.key != t.key2)) with ackDel := d.ackDel ++ [t.key2], deadDelete := true }, ",DELETED")
+    else (d, ",NOT_FOUND")
 
 def step (d : DSt) (line : String) : DSt × String :=
   match words line with
   | ["case", _, _, _] =>
-    ({ d with s := init [], gens := [], fileV := [], ths := [], next := 10, flagged := false, markers := [], ackDel := [], orphaned := false, stopped := none }, line)
+    ({ d with s := init [], gens := [], fileV := [], ths := [], next := 10, flagged := false, markers := [], ackDel := [], orphaned := false, stopped := none, deadDelete := false, pendingCause := "" }, line)
   | ["set", k, v] =>
     let t := d.next
     match acts d (summonActs d t) with
@@ -157,7 +197,7 @@ def step (d : DSt) (line : String) : DSt × String :=
     match act d (.summon (idOf n)) with
     | none =>
       let t : Th := { name := n, id := idOf n, kind := "set", key := k, val := v, stage := "waiting", gen := 0 }
-      ({ d with ths := d.ths ++ [t] }, s!"{n} waiting")
+      ({ d with ths := d.ths ++ [t] }, s!"{n} wait-timeout")
     | some d1 =>
       let t : Th := { name := n, id := idOf n, kind := "set", key := k, val := v, stage := "summoned", gen := (d1.s.th (idOf n)).gen }
       ({ d1 with ths := d1.ths ++ [t] }, s!"{n}@gw.set.summoned")
@@ -169,10 +209,16 @@ def step (d : DSt) (line : String) : DSt × String :=
       match t.kind, t.stage with
       | "set", "waiting" =>
         match act d (.summon t.id) with
-        | none => (d, s!"{n} waiting")
+        | none => (d, s!"{n} wait-timeout")
         | some d1 => (upd d1 "summoned" (d1.s.th t.id).gen, s!"{n}@gw.set.summoned")
       | "set", "summoned" => (d, s!"{n}@gw.set.summoned")
       | "set", "vigil" => (d, s!"{n}@gw.set.vigil")
+      | "del", "draining" =>
+        match destroyFin d t.id with
+        | some d1 =>
+          let (d2, fl) := flag d d1 (if d.cfg.ceasesOnce then "C16-auto-destroy-loses-acked-write" else "C16-double-cease-unblocks-drain")
+          ({ d2 with ths := d2.ths.map (fun u => if u.name == n then { u with stage := "done" } else u) }, s!"{n} done {t.val}" ++ fl)
+        | none => (d, s!"{n} wait-timeout")
       | _, _ => (d, "bad-op")
   | ["spawn", n, "set", k, v] =>
     if d.ths.any (·.name == n) then (d, "bad-op") else
@@ -181,6 +227,22 @@ def step (d : DSt) (line : String) : DSt × String :=
     | some d1 =>
       let t : Th := { name := n, id := idOf n, kind := "set", key := k, val := v, stage := "summoned", gen := (d1.s.th (idOf n)).gen }
       ({ d1 with ths := d1.ths ++ [t] }, s!"{n}@gw.set.summoned")
+  | ["spawn", n, "delm", k, k2] =>
+    -- one Delete request with two keys; the first one is the last record (the corpus makes sure of that)
+    if d.ths.any (·.name == n) then (d, "bad-op") else
+    let tid := idOf n
+    match acts d (summonActs d tid) with
+    | none => (d, s!"{n} stuck")
+    | some d1 =>
+      let g := (d1.s.th tid).gen
+      let (d2, st) := delV d1 g k
+      match act d2 (.del tid (keyNum k)) with
+      | none => (d, "ERR")
+      | some d3 =>
+        if (d3.s.th tid).pc == 4 && !d3.s.holders.isEmpty then
+          let t : Th := { name := n, id := tid, kind := "del", key := k, val := st, stage := "draining", gen := g, key2 := k2 }
+          ({ d3 with ths := d3.ths ++ [t] }, s!"{n}@destroy.draining")
+        else (d, "bad-op")
   | ["spawn", n, "del", k] =>
     if d.ths.any (·.name == n) then (d, "bad-op") else
     if !d.s.live && d.fileV.isEmpty then (d, s!"{n} done NOT_FOUND") else
@@ -207,12 +269,43 @@ def step (d : DSt) (line : String) : DSt × String :=
           match act d3 (.cease tid) with
           | some d4 => ({ d4 with ths := d4.ths ++ [{ name := n, id := tid, kind := "del", key := k, val := st, stage := "done", gen := g }] }, s!"{n} done {st}")
           | none => (d, "ERR")
+  | ["spawnv", n, "del", k] =>
+    if d.ths.any (·.name == n) then (d, "bad-op") else
+    if !d.s.live && d.fileV.isEmpty then (d, s!"{n} done NOT_FOUND") else
+    let tid := idOf n
+    match acts d (summonActs d tid) with
+    | none => (d, s!"{n} stuck")
+    | some d1 =>
+      let t : Th := { name := n, id := tid, kind := "del", key := k, val := "", stage := "delvigil", gen := (d1.s.th tid).gen }
+      ({ d1 with ths := d1.ths ++ [t] }, s!"{n}@gw.del.vigil")
+  | ["gow", n] =>
+    match d.ths.find? (·.name == n) with
+    | some t =>
+      if t.kind == "del" && t.stage == "draining" then
+        match destroyFin d t.id with
+        | some d1 =>
+          let (d2, fl) := flag d d1 (if d.cfg.ceasesOnce then "C16-auto-destroy-loses-acked-write" else "C16-double-cease-unblocks-drain")
+          ({ d2 with ths := d2.ths.map (fun u => if u.name == n then { u with stage := "done" } else u) }, s!"{n} done {t.val}" ++ fl)
+        | none => (d, s!"{n} wait-timeout")
+      else (d, "bad-op")
+    | none => (d, "bad-op")
   | ["go", n] =>
     match d.ths.find? (·.name == n) with
     | none => (d, "bad-op")
     | some t =>
       let upd := fun (d' : DSt) (stage : String) => { d' with ths := d'.ths.map (fun u => if u.name == n then { u with stage := stage } else u) }
       match t.kind, t.stage with
+      | "del", "delvigil" =>
+        let (d2, st) := delV d t.gen t.key
+        match act d2 (.del t.id (keyNum t.key)) with
+        | none => (d, "ERR")
+        | some d3 =>
+          let setv := fun (d' : DSt) (stage : String) => { d' with ths := d'.ths.map (fun u => if u.name == n then { u with stage := stage, val := st } else u) }
+          if (d3.s.th t.id).pc == 4 then (setv d3 "draining", s!"{n}@destroy.draining")
+          else if (d3.s.th t.id).pc == 3 then (setv d3 "done", s!"{n} done {st}")
+          else match act d3 (.cease t.id) with
+            | some d4 => (setv d4 "done", s!"{n} done {st}")
+            | none => (d, "ERR")
       | "set", "summoned" =>
         if d.cfg.atomicSummon then (upd d "vigil", s!"{n}@gw.set.vigil") else
         match act d (.begin t.id) with
@@ -222,7 +315,8 @@ def step (d : DSt) (line : String) : DSt × String :=
         let (d1, st) := writeV d t.gen t.key t.val
         match acts d1 [.write t.id (keyNum t.key), .cease t.id] with
         | some d2 =>
-          let (d3, fl) := flag d d2 (if d.orphaned then "C16-summon-replaces-closing-instance" else "C16-idle-close-loses-acked-write")
+          let (d3, fl) := flag d d2 (if d.orphaned then "C16-summon-replaces-closing-instance" else if d.s.debt > 0 then "C16-double-cease-unblocks-drain"
+                                     else "C16-idle-close-loses-acked-write")
           (upd d3 "done", s!"{n} done {st}" ++ fl)
         | none => (d, "ERR")
       | "close", "flushed" =>
@@ -239,7 +333,8 @@ def step (d : DSt) (line : String) : DSt × String :=
         match destroyFin d t.id with
         | some d1 =>
           let (d2, fl) := flag d d1 "C16-auto-destroy-loses-acked-write"
-          (upd d2 "done", s!"{n} done {t.val}" ++ fl)
+          let (d3, st2) := delSecond d2 t
+          (upd d3 "done", s!"{n} done {t.val}{st2}" ++ fl)
         | none => (d, s!"{n} stuck")
       | _, _ => (d, "bad-op")
   | ["tick", "arm"] =>
@@ -254,7 +349,7 @@ def step (d : DSt) (line : String) : DSt × String :=
         match acts d1 [.closeFlush, .closeDone] with
         | some d2 => (d2, "tick closed")
         | none => (d1, "ERR")
-      else (d1, "tick noclose")
+      else (d1, "tick timeout-noclose")
   | ["stop"] =>
     if d.stopped.isSome then (d, "bad-op") else
     if d.cfg.stopWaitsUntilClosed then
@@ -269,8 +364,8 @@ def step (d : DSt) (line : String) : DSt × String :=
       let n := if d.s.live then 1 else 0
       match act d .exit with
       | some d2 =>
-        let (d3, fl) := flag d d2 "C16-stop-returns-before-swamps-closed"
-        ({ d3 with stopped := some n }, s!"stopped open={n}" ++ fl)
+        let (d3, _) := flag d d2 "C16-stop-returns-before-swamps-closed"
+        ({ d3 with stopped := some n, pendingCause := "" }, s!"stopped open={n}" ++ (if n > 0 then "\t#F:C16-stop-returns-before-swamps-closed" else ""))
       | none => (d, "hang")
   | ["close"] =>
     if !d.s.live then (d, "closed") else
@@ -282,15 +377,17 @@ def step (d : DSt) (line : String) : DSt × String :=
     | none => (d, "ERR")
   | ["reopen"] =>
     if d.stopped.isSome && d.stopped != some 0 then (d, "keys=?") else
-    let back := fun (x : DSt) => if (memOf x x.s.gen).any (fun r => x.ackDel.contains r.key) then "\t#F:C16-delete-after-recreate-resurrects" else ""
-    if d.s.live then (d, showKeys (memOf d d.s.gen) ++ back d)
-    else if d.fileV.isEmpty then (d, "keys=[]")
+    let back := fun (x : DSt) => if (memOf x x.s.gen).any (fun r => x.ackDel.contains r.key) then
+        (if x.deadDelete then "\t#F:C16-delete-continues-on-closed-instance" else "\t#F:C16-delete-after-recreate-resurrects") else ""
+    let lost := fun (x : DSt) => if x.pendingCause != "" then s!"\t#F:{x.pendingCause}" else ""
+    if d.s.live then ({ d with pendingCause := "" }, showKeys (memOf d d.s.gen) ++ back d ++ lost d)
+    else if d.fileV.isEmpty then ({ d with pendingCause := "" }, "keys=[]" ++ lost d)
     else
       let t := d.next
       -- the value-level file may hold keys the key-set model has dropped (lost delete markers)
       let d0 := { d with s := { d.s with file := d.fileV.map (fun r => keyNum r.key) } }
       match acts d0 (summonActs d0 t ++ [.cease t]) with
-      | some d1 => ({ d1 with next := t + 1 }, showKeys (memOf d1 d1.s.gen) ++ back d1)
+      | some d1 => ({ d1 with next := t + 1, pendingCause := "" }, showKeys (memOf d1 d1.s.gen) ++ back d1 ++ lost d)
       | none => (d, "hang")
   | _ => (d, "bad-op")
 
@@ -300,8 +397,10 @@ def run (args : List String) : IO UInt32 := do
   let cfg : Cfg := { destroyRechecks := yes "destroyRechecksAfterDrain",
                      atomicSummon := yes "listenerReadsTouchUnderLock" && yes "summonTakesVigil",
                      summonWaitsForUnmap := arg kv "summonWaitsForUnmap" != "no",
-                     stopWaitsUntilClosed := arg kv "stopWaitsUntilClosed" != "no" }
-  lineLoop step { cfg := cfg, s := init [], gens := [], fileV := [], ths := [], next := 10, flagged := false,
+                     stopWaitsUntilClosed := arg kv "stopWaitsUntilClosed" != "no",
+                     ceasesOnce := arg kv "ceasesVigilOnce" != "no" }
+  let dcc := arg kv "deleteRefusesClosedInstance" != "no"
+  lineLoop step { cfg := cfg, delChecksClosed := dcc, s := init [], gens := [], fileV := [], ths := [], next := 10, flagged := false,
                   recreateDropsMarker := arg kv "recreateDropsDeleteMarker" != "no", markers := [], ackDel := [] }
   return 0
 
